@@ -384,6 +384,19 @@ def run(ctx):
                   if direct else "", fi.where)
     from rules import c13
     c13.check_init_through_setter(ctx, "C19.c", m)
+    writers_ = []
+    for fi_ in m.all_funcs():
+        if fi_.module.short == "config":
+            continue
+        for st in ast.walk(fi_.node):
+            if isinstance(st, (ast.Assign, ast.AugAssign, ast.AnnAssign)):
+                tg = st.targets if isinstance(st, ast.Assign) else [st.target]
+                if any(isinstance(t_, ast.Attribute) and t_.attr == "free_arithmetics" for t_ in tg):
+                    writers_.append(f"{fi_.qualname}: `{U(st)[:50]}`")
+            if isinstance(st, ast.Call) and U(st.func).endswith("_free_arithmetics.set"):
+                writers_.append(f"{fi_.qualname}: `{U(st)[:50]}`")
+    ctx.check(not writers_, "C19.c", "library-never-assigns-the-option", "outside config.py the option is only entered through enable_free_arithmetics()",
+              f"{writers_[:2]} assign the option directly: the previous value (of this context) is not restored", "src/physt")
     # frequencies setter: negative contents
     fs = HB.setters.get("frequencies")
     if fs is None:
